@@ -140,14 +140,15 @@ class Custom(Sub):
 
     def cases(self, tier, unit):
         for i in range(len(PATTERNS)):
-            for shadow in (0, 1):
+            for shadow in (0, 1, 2, 3):
                 yield [i, shadow]
 
     def check(self, env, case):
         i, shadow = case
         text = PATTERNS[i]
-        fname = 'SUMSQ' if not shadow else 'MAX'      # MAX is a built-in: the custom one must win
-        gname = 'GN' if not shadow else 'ABS'
+        # 1: MAX and ABS are built-ins, the custom ones must win; 2, 3: other identifier-shaped names
+        fname = ('SUMSQ', 'MAX', '_SQ', 'f_1.x')[shadow]
+        gname = ('GN', 'ABS', 'G_', '__g')[shadow]
         text = text.replace('GN(', gname + '(').replace('FN(', fname + '(')
         log = []
 
@@ -283,7 +284,8 @@ def unknown_fn_names(tier):
         for t in itertools.product(alpha, repeat=n):
             s = ''.join(t)
             # shapes the lexer documents as function names: letters first, then letters/digits/_/.
-            if re.match(r'[A-Za-z][A-Za-z0-9_.]*\Z', s) and s not in supset:
+            # identifier-shaped names (letter or underscore first), dots allowed inside
+            if re.match(r'[A-Za-z_][A-Za-z0-9_.]*\Z', s) and s not in supset:
                 names.append(s)
     names += ['NOSUCH', 'A1', 'XFD10', 'Sum', 'sum', 'NO.SUCH', 'SUMX', 'XSUM', 'TRUEX', 'F', 'VERY_LONG_FUNCTION_NAME_' * 3]
     # near misses of documented names: a dot or an underscore inserted, a character doubled or dropped
@@ -322,7 +324,9 @@ class Unknown(Sub):
                 pis = range(len(POSITIONS)) if tier == 'thorough' else (0, 1 + k % (len(POSITIONS) - 1))
                 for pi in pis:
                     yield ['fn', nm, pi, 1]
-        for nm in ('nosuchvar', 'x', 'Some_Var', 'trueish', 'q_', 'abc'):
+        # ... and a dotted name whose first part IS set is still another, unset, name
+        for nm in ('nosuchvar', 'x', 'Some_Var', 'trueish', 'q_', 'abc', 'vset.nosuch', 'TRUE.x', 'vset.y.z', 'nosuch.vset',
+                   '_u', 'vset_'):
             for pi in range(len(POSITIONS)):
                 yield ['var', nm, pi, 0]
 
@@ -332,7 +336,7 @@ class Unknown(Sub):
             env.nt()
         x = nm if kind == 'var' else '%s(%s)' % (nm, ','.join(['1', '"b"'][:nargs]))
         text = POSITIONS[pi].replace('{x}', x).replace('{{', '{').replace('}}', '}')
-        out = env.evo(text, funcs={'KNOWNFN': lambda *a: 1})
+        out = env.evo(text, vars={'vset': 3}, funcs={'KNOWNFN': lambda *a: 1})
         if out != ['e', '#NAME?']:
             return fail('%r uses the unregistered %s %s; expected #NAME?, got %r' % (
                 text, 'function' if kind == 'fn' else 'variable', nm, out), ['e', '#NAME?'], out)
